@@ -104,7 +104,9 @@ def build_go(names):
         if not (GO / "go.sum").exists() and (REPO / "go.sum").exists():
             (GO / "go.sum").write_bytes((REPO / "go.sum").read_bytes())
         for n in names:
-            rc, out, err = sh(["go", "build", "-tags", "verif", "-o", str(BIN / n), "./cmd/" + n],
+            cover = (["-cover", "-coverpkg=./...,github.com/tokenized/bitcoin_reader,github.com/tokenized/bitcoin_reader/headers"]
+                     if os.environ.get("BRV_COVER") and n != "extract" else [])
+            rc, out, err = sh(["go", "build", "-tags", "verif"] + cover + ["-o", str(BIN / n), "./cmd/" + n],
                               cwd=GO, env=GOENV, timeout=600)
             if rc != 0:
                 return False, f"go build {n} failed:\n{err}"
@@ -290,12 +292,20 @@ def read_lines(path):
 TIMEOUT_FACTOR = float(os.environ.get("BRV_TIMEOUT_FACTOR", "4"))
 
 
+def _harness_env():
+    env = dict(os.environ, GOMEMLIMIT="3GiB", BRV_FACTS=str(WORK / "facts.json"))
+    if os.environ.get("BRV_COVER"):          # bin/coveraudit: which functions of /repo do the harnesses reach
+        (WORK / "cover").mkdir(exist_ok=True)
+        env["GOCOVERDIR"] = str(WORK / "cover")
+    return env
+
+
 def run_harness(name, script_path, out_path, timeout=600, limit_kb=6_000_000, args=("run",)):
     timeout = timeout * TIMEOUT_FACTOR
     err_path = str(out_path) + ".stderr"
     rc, _, err = sh([str(BIN / name)] + list(args), stdin_path=script_path, stdout_path=out_path,
                     stderr_path=err_path, timeout=timeout, limit_kb=limit_kb,
-                    env=dict(os.environ, GOMEMLIMIT="3GiB", BRV_FACTS=str(WORK / "facts.json")))
+                    env=_harness_env())
     return rc, err
 
 
